@@ -464,6 +464,22 @@ theorem C36_source_facts :
     Thanos.Facts.dsAggregatorAddConds = ["a.total > 0", "s.v < a.last", "s.v < a.min", "s.v > a.max"] := by
   decide
 
+/-- Regenerated obligations about the entry points, i.e. how the modelled functions are composed:
+    DownsampleRaw hands `downsampleFloatBatch` itself to the loop and that function gives
+    `downsampleBatch` a fresh `&floatAggregator{}` per batch (the model's `floatBatch` starts from
+    `Agg.zero`); the block-level `Downsample()` calls DownsampleRaw for a raw series only when the
+    chunk encoding changes and once after the loop over the series' chunks — never on a partial
+    buffer (the model's `downsampleRaw` gets the whole series). -/
+theorem C36_entry_facts :
+    Thanos.Facts.dsRawBatchFn = ["downsampleHistogramBatch", "downsampleFloatBatch"] ∧
+    Thanos.Facts.dsFloatBatchAggr = ["&floatAggregator{}"] ∧
+    Thanos.Facts.dsFloatBatchCalls = ["newAggrChunkBuilder", "Append", "downsampleBatch", "Append", "encode"] ∧
+    Thanos.Facts.dsDownsampleRawCalls =
+      ["for postings.Next() > if origMeta.Thanos.Downsample.Resolution == 0 > for range chks > if cutNewChunk(c.Chunk.Encoding(), prevEnc)",
+       "for postings.Next() > if origMeta.Thanos.Downsample.Resolution == 0",
+       "for postings.Next() > else-of origMeta.Thanos.Downsample.Resolution == 0 > for range chks > else-of c.Chunk.NumSamples() == 0"] :=
+  ⟨by decide, by decide, by decide, rfl⟩
+
 -- non-vacuity: the batch of TestDownsampleCounterBoundaryReset's first chunk and a two-window batch
 example : floatBatch [(10, 1), (20, 3), (30, 5)] 50 =
     some { mint := 30, maxt := 30, count := [(30, 3)], sum := [(30, 9)], min := [(30, 1)], max := [(30, 5)],
